@@ -221,7 +221,8 @@ Definition merge (s o : cq) : M cq :=
 (* ---------- iterator, AS CODED (quantiles_sketch::const_iterator) ---------- *)
 Record iter := mkiter { it_level : Z; it_index : Z; it_bp : Z; it_w : Z }.
 
-(* while ((bit_pattern_ & 1) == 0) { weight_ *= 2; ++level_; bit_pattern_ >>= 1; } *)
+(* while ((bit_pattern_ & 1) == 0) { weight_ *= 2; ++level_; bit_pattern_ >>= 1; }
+   (the loops of the iterator are unbounded in the code; the number of levels is enough fuel) *)
 Fixpoint begin_skip (fuel : nat) (level bp w : Z) : iter :=
   match fuel with
   | O => mkiter level 0 bp w
@@ -231,7 +232,7 @@ Fixpoint begin_skip (fuel : nat) (level bp w : Z) : iter :=
 Definition it_begin (s : cq) : iter :=
   let bb_count := cn s mod (2 * ck s) in
   let bp := cn s / (2 * ck s) in
-  if (bb_count =? 0) && (0 <? bp) then begin_skip 64 0 bp 2 else mkiter (-1) 0 bp 1.
+  if (bb_count =? 0) && (0 <? bp) then begin_skip (length (clv s)) 0 bp 2 else mkiter (-1) 0 bp 1.
 
 (* (level_, index_) of end() *)
 Definition it_end (s : cq) : Z * Z :=
@@ -252,7 +253,7 @@ Fixpoint next_level (fuel : nat) (level bp w : Z) : iter :=
 Definition it_next (s : cq) (i : iter) : iter :=
   let idx := it_index i + 1 in
   if ((it_level i =? -1) && (idx =? len (cbb s)) && (0 <? len (clv s))) || ((0 <=? it_level i) && (idx =? ck s))
-  then next_level 65 (it_level i) (it_bp i) (it_w i)
+  then next_level (S (length (clv s))) (it_level i) (it_bp i) (it_w i)
   else mkiter (it_level i) idx (it_bp i) (it_w i).
 
 Definition it_deref (s : cq) (i : iter) : Z * Z :=
